@@ -40,6 +40,11 @@ CLAIMS = {
          "per resolution, rng.next called nowhere else, the arrays walked are the arrays summed), that the walk cannot return none, and the anonymous-head "
          "defaults for rank/utility. Does not decide which interval a particular float r*sum falls into (rounding is a numeric question).",
          "expression-shape / sibling agreement rules + interprocedural return-origin analysis over clang AST facts (static analysis)"),
+ "C13": ("Decides that both RegistryT specialisations answer the six queries with the same normalised comparison, that the comparisons are the ones the "
+         "statement prescribes over the fields the commit / resume code writes (same index convention), the INVALID sentinel exclusion of the pending "
+         "queries, that all control facades forward unchanged, and that the resume path hands the remembered prong down unchanged. Does not decide "
+         "exactness of the pending queries for nested states whose ancestor region is the one switching.",
+         "normal-form (atom set) sibling comparison + field tables over clang AST facts (static analysis)"),
  "C05": ("Decides the structural clauses of C05 for every instantiation of the reaction/update patterns in the witness zoo: phase order in "
          "R_::update/react/query, head vs sub-state order in C_/O_ and the 16 reaction wrappers, Initial-before-Remaining in OS_, consumption gating "
          "between any two consecutive deliveries (call-graph fixpoint mayDeliver/entryGated + path rule), active-prong origin, injected-base order. "
